@@ -26,6 +26,7 @@ fn main() {
         let op = args[4].as_str();
         let size: usize = args[5].parse().unwrap();
         let old: usize = args[6].parse().unwrap();
+        let align: usize = args.get(7).map(|x| x.parse().unwrap()).unwrap_or(1);
         unsafe {
             let a = kani_alloc::AllocT::new(usize::MAX / 2);
             // reach the pre-state: `used` bytes live (one block of `old`/`size` to operate on when needed), peak = used
@@ -38,24 +39,24 @@ fn main() {
             if used > victim {
                 blocks.push((a.alloc(Layout::from_size_align(used - victim, 1).unwrap()), used - victim));
             }
-            let vp = if victim > 0 { a.alloc(Layout::from_size_align(victim, 1).unwrap()) } else { std::ptr::null_mut() };
+            let vp = if victim > 0 { a.alloc(Layout::from_size_align(victim, align).unwrap()) } else { std::ptr::null_mut() };
             a.set_limit(limit);
             a.reset_max();
             let (ok, p2) = match op {
                 "alloc" => {
-                    let p = a.alloc(Layout::from_size_align(size, 1).unwrap());
+                    let p = a.alloc(Layout::from_size_align(size, align).unwrap());
                     (!p.is_null(), p)
                 }
                 "alloc_zeroed" => {
-                    let p = a.alloc_zeroed(Layout::from_size_align(size, 1).unwrap());
+                    let p = a.alloc_zeroed(Layout::from_size_align(size, align).unwrap());
                     (!p.is_null(), p)
                 }
                 "realloc" => {
-                    let p = a.realloc(vp, Layout::from_size_align(old, 1).unwrap(), size);
+                    let p = a.realloc(vp, Layout::from_size_align(old, align).unwrap(), size);
                     (!p.is_null(), p)
                 }
                 _ => {
-                    a.dealloc(vp, Layout::from_size_align(size, 1).unwrap());
+                    a.dealloc(vp, Layout::from_size_align(size, align).unwrap());
                     (true, std::ptr::null_mut())
                 }
             };
